@@ -182,6 +182,58 @@ theorem div_simple (n d : Expr) (hn : divFree n = true) (hd : divFree d = true) 
   cases n <;> simp [divFree, isZero] at hn hn0 <;>
     cases d <;> simp [divFree, isZero, isOne] at hd hd1 hd0 <;> rfl
 
+/-! ### one evaluation step per constructor (shared by the object-equality and the meaning theorems) -/
+
+theorem eval_prob_step (pop : Option Var) (c p : List Var) (hb : built lt (.prob pop c p) = true) :
+    eval lt (astOf (.prob pop c p)) = .ok (.expr (.prob pop c p)) := by
+  simp only [built, Bool.and_eq_true, Bool.not_eq_true', List.isEmpty_iff] at hb
+  obtain ⟨⟨⟨⟨⟨hne, hc⟩, hp⟩, hcc⟩, hpc⟩, hpop⟩ := hb
+  have hne' : c ≠ [] := by
+    intro h0; rw [h0] at hne; simp at hne
+  simpa [astOf] using eval_astProb lt pop c p hne' hc hp hcc hpc hpop
+
+/-- `Sum[rs](e)` evaluates to the `Sum` of whatever (non-`Zero`) object the body evaluates to -/
+theorem eval_sum_step (e e' : Expr) (rs : List Var) (hne : rs.isEmpty = false) (hinc : incBy Var.name rs = true)
+    (hplain : rs.all plainVar = true) (he : eval lt (astOf e) = .ok (.expr e')) (hz : isZero e' = false) :
+    eval lt (astOf (.sum e rs)) = .ok (.expr (.sum e' rs)) := by
+  have hne' : rs ≠ [] := by
+    intro h0; rw [h0] at hne; simp at hne
+  have hcan : rs.all canonVar = true := by
+    rw [List.all_eq_true] at hplain ⊢
+    intro v hv; exact canonVar_of_plain (hplain v hv)
+  obtain ⟨val, hval, hhint⟩ := eval_var_tuple lt rs hne' hcan
+  have hany : rs.any (fun r => r.isIv || !r.ivs.isEmpty) = false := by
+    rw [List.any_eq_false]
+    intro v hv
+    have := List.all_eq_true.mp hplain v hv
+    simp only [plainVar, Bool.and_eq_true, Bool.not_eq_true', List.isEmpty_iff] at this
+    simp [this.1.2, this.2]
+  simp only [astOf, byName_fix hinc, eval, evalList, hval, he, bind, Except.bind, subscript, hhint, pure,
+    Except.pure, upgradeOrdering_fix hinc, callVal, sumSafe, hne, hz, hany, Bool.false_eq_true, if_false]
+
+/-- `n / d` evaluates to `n' / d'` of the objects the operands evaluate to -/
+theorem eval_frac_step (n d n' d' : Expr) (hn : eval lt (astOf n) = .ok (.expr n')) (hd : eval lt (astOf d) = .ok (.expr d')) :
+    eval lt (astOf (.frac n d)) = (match div lt n' d' with | .ok c => .ok (.expr c) | .error e => .error e) := by
+  simp only [astOf, eval, hn, hd, bind, Except.bind, binop]
+  cases div lt n' d' <;> rfl
+
+theorem eval_q_step (dom cod : List Var) (hb : built lt (.q dom cod) = true) :
+    eval lt (astOf (.q dom cod)) = .ok (.expr (.q dom cod)) := by
+  simp only [built, Bool.and_eq_true, Bool.not_eq_true', List.isEmpty_iff] at hb
+  obtain ⟨⟨⟨⟨⟨hdne, hcne⟩, hdi⟩, hci⟩, hdc⟩, hcc⟩ := hb
+  have hcne' : cod ≠ [] := by
+    intro h0; rw [h0] at hcne; simp at hcne
+  obtain ⟨val, hval, hhint⟩ := eval_var_tuple lt cod hcne' hcc
+  cases dom with
+  | nil => simp at hdne
+  | cons v rest =>
+    have hrest : incBy Var.name rest = true := incBy_tail _ hdi
+    have hev := evalList_vars lt (v :: rest) hdc
+    simp only [List.map_cons] at hev
+    simp only [astOf, byName_fix hdi, byName_fix hci, eval, hval, List.map_cons, hev, bind, Except.bind,
+      subscript, callVal, qSafe, mapM_asVar_vars, hhint, pure, Except.pure, upgradeOrdering_fix hrest,
+      normVars_fix hdi, normVars_fix hci]
+
 /-! ### the main induction -/
 
 /-- evaluating the operator tree of a built expression of the simple-division family rebuilds the object -/
@@ -238,7 +290,7 @@ theorem eval_astOf : ∀ e, built lt e = true → simple e = true → eval lt (a
     simp only [built, Bool.and_eq_true, Bool.not_eq_true'] at hb
     simp only [simple, Bool.and_eq_true, Bool.not_eq_true'] at hs
     obtain ⟨⟨⟨⟨⟨hdn, hdd⟩, _⟩, hn0⟩, hd1⟩, hd0⟩ := hs
-    simp only [astOf, eval, ihn hb.1.1 (divFree_simple n hdn), ihd hb.1.2 (divFree_simple d hdd), bind, Except.bind,
+    simp only [astOf, eval, ihn hb.1.1.1 (divFree_simple n hdn), ihd hb.1.1.2 (divFree_simple d hdd), bind, Except.bind,
       binop, div_simple lt n d hdn hdd hn0 hd1 hd0]
     rfl
   · intro _ _; rfl
@@ -278,7 +330,7 @@ theorem wf_of_built : ∀ e, built lt e = true → wf e = true := by
     simp [wf, hb.1.1.1.1, ih hb.1.2]
   · intro n d ihn ihd hb
     simp only [built, Bool.and_eq_true] at hb
-    simp [wf, ihn hb.1.1, ihd hb.1.2]
+    simp [wf, ihn hb.1.1.1, ihd hb.1.1.2]
   · intro _; rfl
   · intro _; rfl
   · intro d c hb
